@@ -24,7 +24,8 @@ LEVEL_TEXT = ("Generated machine states (1x1 up to 256x256 addressing with "
               "blocks, per-core status blocks, router counters, both version "
               "encodings) are probed by the real controller; every reported "
               "figure, the derived Machine and the generated core "
-              "reservations are compared with the model's state.")
+              "reservations are compared with the model's state."
+              ' Console chains of up to 500 buffers; surveys started from a named chip on machines whose boot chip has lost routes.')
 LEVEL_NOTE = ("Trusted: the machine model's info / P2P / vcpu / iobuf "
               "layouts (written from sark.struct and the documented reply "
               "formats).")
